@@ -384,6 +384,7 @@ def run(tier: str, only=None) -> core.Result:
             continue
         out = explorer.explore(RUN, cfgs, fidelity=True)
         sched.absorb(res, name, RUN, out, cfgs, min_outcomes=1 if name == "congested-write-stream" else 2)
+        sched.debug_pass(res, name, RUN, [c for c in cfgs if c.get("traffic") != "flood"], every=5)
     res.coverage["exhaustive"] = True
     res.coverage["rule"] = (
         "every placement of {cancel, matching response} on the grid {10 ms steps within +-30 ms (quick +-10 ms) of each 0.5 s "
